@@ -91,6 +91,12 @@ def install(eng):
     def m_gr(st, a): eng.store(st, a[0], 1, 1)
     @model('__cxa_guard_abort')
     def m_gab(st, a): pass
+    @model('_ZSt21__glibcxx_assert_failPKciS0_S0_', '_ZSt18__replacement_assertPKciS0_S0_')
+    def m_gaf(st, a):
+        msg = ''
+        try: msg = eng.read_cstr(st, a[3]).decode('latin1')
+        except Exception: pass
+        raise Bug('libassert', 'libstdc++ precondition violated (undefined behaviour): ' + msg, eng._m(st))
     @model('__cxa_pure_virtual')
     def m_pv(st, a): raise Bug('abort', 'pure virtual call', eng._m(st))
 
